@@ -414,4 +414,52 @@ theorem C07_direct_read_full_false :
 
 example : liveGenOK etD etT 4 4 = false ∧ forTargetKilledUnwrittenL etD etT 3 4 4 = false := by decide
 
+/-! ## The pinned tree, deviation (e): the body of a class statement is read by no CFG node's Scope
+
+    def f(a, b, c):
+        v = [a, b]
+        if d():
+            v = [tr(1, c), 4]
+        class K(object):
+            z = v
+        r = K.z
+        return tr(0, r)               [3, 4] natively, [1, 2] converted
+
+The `ClassDef` CFG node carries only the decorators / bases in its Scope; the reads of the class body go to the enclosing block's
+Scope and to no node.  (REAL data; variables 3 v, 7 K; nodes 6 `v = …`, 12 `d()`, 14 `v = [tr(1, c), 4]`, 22 the class statement.) -/
+
+def cbD : CfgData where
+  fnId := 1
+  graph := { nodes := [2, 6, 12, 14, 22, 27, 31], edges := [(2, 6), (6, 12), (12, 14), (12, 22), (14, 22), (22, 27), (27, 31)] }
+  entry := 2
+  exits := [31]
+  info := [
+    { id := 2, scope := some { read := [], modified := [], deleted := [], bound := [0, 1, 2], globals := [], nonlocals := [], params := [0, 1, 2], annotations := [] }, isForIter := false, forTargets := [], isFnDef := false, fnsIn := some [] },
+    { id := 6, scope := some { read := [0, 1], modified := [3], deleted := [], bound := [3], globals := [], nonlocals := [], params := [], annotations := [] }, isForIter := false, forTargets := [], isFnDef := false, fnsIn := some [] },
+    { id := 12, scope := some { read := [4], modified := [], deleted := [], bound := [], globals := [], nonlocals := [], params := [], annotations := [] }, isForIter := false, forTargets := [], isFnDef := false, fnsIn := some [] },
+    { id := 14, scope := some { read := [2, 5], modified := [3], deleted := [], bound := [3], globals := [], nonlocals := [], params := [], annotations := [] }, isForIter := false, forTargets := [], isFnDef := false, fnsIn := some [] },
+    { id := 22, scope := some { read := [6], modified := [7], deleted := [], bound := [7], globals := [], nonlocals := [], params := [], annotations := [] }, isForIter := false, forTargets := [], isFnDef := false, fnsIn := some [] },
+    { id := 27, scope := some { read := [7, 8], modified := [9], deleted := [], bound := [9], globals := [], nonlocals := [], params := [], annotations := [] }, isForIter := false, forTargets := [], isFnDef := false, fnsIn := some [] },
+    { id := 31, scope := some { read := [5, 9], modified := [], deleted := [], bound := [], globals := [], nonlocals := [], params := [], annotations := [] }, isForIter := false, forTargets := [], isFnDef := false, fnsIn := some [] }]
+  fns := [
+    { id := 1, parent := 0, isLambda := false, read := [0, 1, 2, 3, 4, 5, 6, 7, 8, 9], bound := [0, 1, 2, 3, 7, 9], nonlocals := [] }]
+def cbV : List Nat := [2, 6, 12, 14, 22, 27, 31]
+def cbIN : St Nat := solAt [(2, [0, 1, 2, 4, 5, 6, 8]), (6, [0, 1, 2, 4, 5, 6, 8]), (12, [2, 4, 5, 6, 8]), (14, [2, 5, 6, 8]), (22, [5, 6, 8]), (27, [5, 7, 8]), (31, [5, 9])]
+def cbOUT : St Nat := solAt [(2, [0, 1, 2, 4, 5, 6, 8]), (6, [2, 4, 5, 6, 8]), (12, [2, 5, 6, 8]), (14, [5, 6, 8]), (22, [5, 7, 8]), (27, [5, 9]), (31, [])]
+def cbT : Trace :=
+  [{ node := 2, reads := [], writes := [0, 1, 2], dels := [], fwrites := [], creads := [] },
+   { node := 6, reads := [0, 1], writes := [3], dels := [], fwrites := [], creads := [] },
+   { node := 12, reads := [4], writes := [], dels := [], fwrites := [], creads := [] },
+   { node := 14, reads := [2, 5], writes := [3], dels := [], fwrites := [], creads := [] },
+   { node := 22, reads := [3, 6], writes := [7], dels := [], fwrites := [], creads := [] },
+   { node := 27, reads := [7], writes := [9], dels := [], fwrites := [], creads := [] },
+   { node := 31, reads := [5, 9], writes := [], dels := [], fwrites := [], creads := [] }]
+
+/-- same shape as `C07_direct_read_full_false`: the class statement (step 4) reads `v` directly, nothing overwrites it after
+`v = [tr(1, c), 4]` (step 3), the real sets are a fixed point and the run is a path — `v` is not live at the exit of step 3. -/
+theorem C07_class_body_counterexample :
+    isFix (Graph.revEdges cbD.graph.edges) cbV (liveFlow cbD) cbOUT cbIN = true ∧ isPathB cbD.graph.edges cbV cbT = true ∧
+    directRead cbT 4 3 = true ∧ isReadBeforeOverwriteB cbT 3 4 3 = true ∧ liveGenOK cbD cbT 4 3 = false ∧
+    3 ∉ cbOUT (cbT.nodeAt 3) ∧ 3 ∉ cbIN (cbT.nodeAt 4) := by decide
+
 end Malt.Analysis.C07
